@@ -49,6 +49,16 @@ def comp(kind, cid, a, b_, k, pal="real"):
 
 # node labels that are also element ids of the same circuit (separate name spaces; ids and labels may coincide)
 LABELS_LIKE_IDS = ("L", "VsR", "A", "Z", "R")
+# distinct labels over one two-character alphabet: every pair of them has the same *set of characters*
+# (label comparisons by character set / concatenation instead of equality collide on every pair)
+LABELS_CHARSET = ("1", "10", "0", "01", "101")
+
+
+def labels_for(orient, ii, n):
+    """node labels of variant (orient, ii): plain digits, labels that are also element ids, or the one-alphabet labels"""
+    if ii % 2:
+        return LABELS_LIKE_IDS[:n]
+    return LABELS_CHARSET[:n] if orient % 2 else None
 
 
 def build(topo, kt, orient, ids, ground_idx, labels=None, pal="real"):
